@@ -243,3 +243,23 @@ Definition ctor_obs (g : gen) : Z * Z * Z * Z * (Q * Q * Z) :=
 Definition ctor_obs_eqb (a b : Z * Z * Z * Z * (Q * Q * Z)) : bool :=
   gen_obs_eqb (fst a) (fst b) &&
   match snd a, snd b with (c1, d1, p1), (c2, d2, p2) => Qeq_bool c1 c2 && Qeq_bool d1 d2 && (p1 =? p2) end.
+
+(* ---- executable instance of `generate`: molecules are indices into tables the harness measured ---------------------- *)
+(* pools m = (the n_confs the pool was embedded for, its energies, its RMSD table); asking for another n_confs gives no pool *)
+Definition tab_energies (pools : list (Z * list Q * list (list Q))) (m : nat) (n : Z) : list Q :=
+  match nth_error pools m with
+  | Some (n0, es, _) => if n =? n0 then es else []
+  | None => []
+  end.
+Definition tab_rmsd (pools : list (Z * list Q * list (list Q))) (m : nat) (n : Z) : nat -> nat -> Q :=
+  match nth_error pools m with
+  | Some (_, _, t) => table_rmsd t
+  | None => fun _ _ => 0%Q
+  end.
+Definition tab_generate (nrots : list Z) (pools : list (Z * list Q * list (list Q))) (g : gen) (m : nat) :=
+  generate nat (fun m => nth m nrots 0) (tab_energies pools) (tab_rmsd pools) g m.
+Definition tab_after (nrots : list Z) (pools : list (Z * list Q * list (list Q))) (g : gen) (ms : list nat) : gen :=
+  after_history nat (fun m => nth m nrots 0) (tab_energies pools) (tab_rmsd pools) g ms.
+
+Definition gen_result_close2 (tol_e tol_r : Q) (a b : result (Z * (list nat * list Q * list (list Q)))) : bool :=
+  result_eqb (fun x y => (fst x =? fst y) && out_close2 tol_e tol_r (snd x) (snd y)) a b.
